@@ -48,6 +48,8 @@ fn stream_writer(rep: &mut Report, drv: &mut Driver, rng: &mut Rng, n: usize) ->
                 }
                 3 | 4 => {
                     let mut t = hostile(rng, 5);
+                    // characters XML cannot contain at all: the writer must refuse, not write them
+                    if rng.chance(1, 12) { t.push_str(*rng.pick(&["\u{2}", "\u{b}", "\u{1f}", "\u{fffe}", "\u{ffff}"])); }
                     if rng.chance(1, 2) { t = format!("{}  \n  {} \t\n", t, hostile(rng, 2)); }
                     toks.push(format!("T {t}"));
                     evs.push(("text".into(), ("".into(), vec![]), t));
@@ -71,6 +73,7 @@ fn stream_writer(rep: &mut Report, drv: &mut Driver, rng: &mut Rng, n: usize) ->
         st.case(&key, true, || json!({"events": toks, "impl": imp, "model": m}));
         match &imp {
             Ok(s) if Some(s) == m.first() => st.exact += 1,
+            Err(_) if m.first().map(|x| x.as_str()) == Some("err") => { st.exact += 1; st.tally("refused-unwritable"); }
             other => rep.violation(Violation { kind: "correspondence", stream: st.name.clone(), signature: "writer".into(), what: format!("impl {:?} vs model {:?}", other, m.first()), replay: json!({"events": toks}), confirmed_on_impl: false }),
         }
     }
